@@ -317,12 +317,69 @@ func (c *ctx) distinct(key string, nontrivial bool) {
 	}
 }
 
+// retained: the caller keeps a decoded value and then reuses the buffer it decoded from (reads the next
+// message into it). A decoded value must not change under its holder: it is described, serialized and
+// re-encoded before and after every byte of the input buffer is overwritten (seed C03-8: a "zero-copy"
+// decodeABIBytes returned a slice of the caller's block).
+var retainedFailures int
+
+func (c *ctx) retained(t *T, pa abi.ParameterArray, block []byte, off int, how string) {
+	priv := append([]byte{}, block...)
+	d, cls := safeDecode(pa, priv, off)
+	if cls != 0 {
+		return
+	}
+	c.st.Hit("retained:" + how)
+	ser := serCfg{Mode: 0, Is: 0, Bs: 1, Ad: 0}.build()
+	before := describeCV(d)
+	js1, s1 := safeSerialize(ser, d)
+	enc1, e1 := func() (b []byte, cls int) {
+		defer func() {
+			if x := recover(); x != nil {
+				b, cls = nil, 2
+			}
+		}()
+		b, err := d.EncodeABIData()
+		if err != nil {
+			return nil, 1
+		}
+		return b, 0
+	}()
+	for i := range priv {
+		priv[i] ^= 0xa5
+	}
+	after := describeCV(d)
+	js2, s2 := safeSerialize(ser, d)
+	enc2, e2 := func() (b []byte, cls int) {
+		defer func() {
+			if x := recover(); x != nil {
+				b, cls = nil, 2
+			}
+		}()
+		b, err := d.EncodeABIData()
+		if err != nil {
+			return nil, 1
+		}
+		return b, 0
+	}()
+	if before != after || s1 != s2 || !bytes.Equal(js1, js2) || e1 != e2 || !bytes.Equal(enc1, enc2) {
+		retainedFailures++
+		if retainedFailures <= 25 {
+			c.st.ImplFailures = append(c.st.ImplFailures, map[string]interface{}{
+				"what":      "a decoded value kept by the caller changed when the caller overwrote the buffer it was decoded from (the value aliases the input block): description / JSON / re-encoding differ before and after",
+				"signature": t.Sig(), "block": hex.EncodeToString(block), "offset": off, "how": how,
+				"before": before, "after": after, "json_before": string(js1), "json_after": string(js2)})
+		}
+	}
+}
+
 // addDec: decode the specification encoding of v, placed after pre and before post.
 func (c *ctx) addDec(t *T, v *V, pre, post []byte) {
 	enc := specEnc(t, v)
 	block := append(append(append([]byte{}, pre...), enc...), post...)
 	pa := t.Params()
 	dcv, cls := safeDecode(pa, block, len(pre))
+	c.retained(t, pa, block, len(pre), "spec-encoding")
 	impl := fmt.Sprintf("class=%d", cls)
 	if cls == 0 {
 		impl += " tree=" + describeCV(dcv)
@@ -346,6 +403,7 @@ func (c *ctx) addDec(t *T, v *V, pre, post []byte) {
 func (c *ctx) addRaw(t *T, block []byte, off int, how string) {
 	pa := t.Params()
 	dcv, cls := safeDecode(pa, block, off)
+	c.retained(t, pa, block, off, "raw:"+how)
 	impl := fmt.Sprintf("class=%d", cls)
 	if cls == 0 {
 		impl += " tree=" + describeCV(dcv)
